@@ -1777,4 +1777,468 @@ theorem parseLoop_prefix {N : Nat} (k m : Nat) (s : St) (hI : Inv N s) (hf : s.r
           | skip => exact ih m s2 hg.1 (hfuel _ hg.2.1)
           | raised e => exact Le.refl _
 
+/-! ## §6 parsing a command does not touch the database; processing it appends at most one item -/
+
+theorem handleError_db (s : St) (e : Err) : (handleError s e).st.db = s.db := by
+  unfold handleError; split <;> rfl
+
+theorem getToken_db (pats : List Pat) (s : St) : (getToken pats s).st.db = s.db := by
+  unfold getToken
+  simp only
+  split
+  · rfl
+  · split <;> rfl
+
+theorem required_db (pats : List Pat) (desc : String) (s : St) : (required pats desc s).st.db = s.db := by
+  have h := getToken_db pats s
+  unfold required
+  cases hr : getToken pats s with
+  | fail a s' => rw [hr] at h; exact h
+  | ok t s' => rw [hr] at h; cases t <;> exact h
+
+theorem strLoop_db (fuel : Nat) (quoted : Bool) (d : Nat) (acc : Str) (s : St) :
+    (strLoop fuel quoted d acc s).st.db = s.db := by
+  induction fuel generalizing d acc s with
+  | zero => rfl
+  | succ fuel ih =>
+    unfold strLoop
+    simp only
+    split
+    · rfl
+    · rename_i chunk rest hsk
+      split
+      · split
+        · rfl
+        · exact ih _ _ { s with rest := rest, ln := s.ln + countNl chunk }
+      · split
+        · split <;> rfl
+        · exact ih _ _ { s with rest := rest, ln := s.ln + countNl chunk }
+      · rfl
+
+theorem substituteMacro_db (name : Str) (s : St) : (substituteMacro name s).st.db = s.db := by
+  unfold substituteMacro
+  split
+  · rfl
+  · split
+    · have h := handleError_db s ⟨.undefinedMacro name, some s.ln⟩
+      cases hr : handleError s ⟨.undefinedMacro name, some s.ln⟩ with
+      | fail a s' => rw [hr] at h; exact h
+      | ok a s' => rw [hr] at h; exact h
+    · rfl
+
+theorem parseValuePart_db (s : St) : (parseValuePart s).st.db = s.db := by
+  have h := required_db [.lit '"', .lit '{', .number, .name] "field value" s
+  unfold parseValuePart
+  cases hr : required [.lit '"', .lit '{', .number, .name] "field value" s with
+  | fail a s' => rw [hr] at h; exact h
+  | ok t s1 =>
+    rw [hr] at h
+    obtain ⟨p, v⟩ := t
+    simp only
+    have hstr : ∀ q, (match strLoop (s1.rest.length + 1) q 0 [] s1 with
+        | .fail e s => (Res.fail e s : Res Str)
+        | .ok str s => .ok str.dropLast s).st.db = s.db := by
+      intro q
+      have h2 := strLoop_db (s1.rest.length + 1) q 0 [] s1
+      cases hs : strLoop (s1.rest.length + 1) q 0 [] s1 with
+      | fail a s' => rw [hs] at h2; exact h2.trans h
+      | ok a s' => rw [hs] at h2; exact h2.trans h
+    split
+    · exact hstr true
+    · exact hstr false
+    · exact h
+    · exact (substituteMacro_db v s1).trans h
+
+theorem parseValueLoop_db (fuel : Nat) (parts : List Str) (s : St) :
+    (parseValueLoop fuel parts s).st.db = s.db := by
+  induction fuel generalizing parts s with
+  | zero => rfl
+  | succ fuel ih =>
+    unfold parseValueLoop
+    have h := parseValuePart_db s
+    cases hr : parseValuePart s with
+    | fail a s' => rw [hr] at h; exact h
+    | ok part s1 =>
+      rw [hr] at h
+      simp only
+      have h2 := getToken_db [.lit '#'] s1
+      cases hr2 : getToken [.lit '#'] s1 with
+      | fail a s' => rw [hr2] at h2; exact h2.trans h
+      | ok t s2 =>
+        rw [hr2] at h2
+        cases t with
+        | none => exact h2.trans h
+        | some t => exact (ih _ s2).trans (h2.trans h)
+
+theorem parseValue_db (s : St) : (parseValue s).st.db = s.db := by
+  unfold parseValue
+  have h := parseValueLoop_db (s.rest.length + 1) [] s
+  cases hr : parseValueLoop (s.rest.length + 1) [] s with
+  | fail a s' => rw [hr] at h; exact h
+  | ok parts s' => rw [hr] at h; exact h
+
+theorem parseField_db (s : St) : (parseField s).st.db = s.db := by
+  unfold parseField
+  have h := getToken_db [.name] s
+  cases hr : getToken [.name] s with
+  | fail a s' => rw [hr] at h; exact h
+  | ok t s1 =>
+    rw [hr] at h
+    cases t with
+    | none => exact h
+    | some t =>
+      obtain ⟨_, name⟩ := t
+      simp only
+      have h2 := required_db [.lit '='] (descOf [.lit '=']) { s1 with curFieldName := some name }
+      cases hr2 : required [.lit '='] (descOf [.lit '=']) { s1 with curFieldName := some name } with
+      | fail a s' => rw [hr2] at h2; exact h2.trans h
+      | ok t2 s2 =>
+        rw [hr2] at h2
+        exact (parseValue_db s2).trans (h2.trans h)
+
+theorem parseEntryFields_db (fuel : Nat) (s : St) : (parseEntryFields fuel s).st.db = s.db := by
+  induction fuel generalizing s with
+  | zero => rfl
+  | succ fuel ih =>
+    unfold parseEntryFields
+    simp only
+    have h : (parseField { s with curFieldName := none, curValue := [] }).st.db = s.db :=
+      parseField_db { s with curFieldName := none, curValue := [] }
+    cases hr : parseField { s with curFieldName := none, curValue := [] } with
+    | fail a s' => rw [hr] at h; exact h
+    | ok u s1 =>
+      rw [hr] at h
+      simp only
+      have key : ∀ s1' : St, s1'.db = s.db → (match getToken [.lit ','] s1' with
+          | .fail e s => (Res.fail e s : Res Unit)
+          | .ok none s => .ok () s
+          | .ok (some _) s => parseEntryFields fuel s).st.db = s.db := by
+        intro s1' h1
+        have h2 := getToken_db [.lit ','] s1'
+        cases hr2 : getToken [.lit ','] s1' with
+        | fail a s' => rw [hr2] at h2; exact h2.trans h1
+        | ok t s2 =>
+          rw [hr2] at h2
+          cases t with
+          | none => exact h2.trans h1
+          | some t => exact (ih s2).trans (h2.trans h1)
+      apply key
+      split
+      · split
+        · exact h
+        · exact h
+      · exact h
+
+theorem parseEntryBody_db (paren : Bool) (s : St) : (parseEntryBody paren s).st.db = s.db := by
+  unfold parseEntryBody
+  have h := required_db [if paren then .keyParen else .keyBrace] "entry key" s
+  cases hr : required [if paren then .keyParen else .keyBrace] "entry key" s with
+  | fail a s' => rw [hr] at h; exact h
+  | ok t s1 =>
+    rw [hr] at h
+    obtain ⟨_, key⟩ := t
+    simp only
+    have h2 := parseEntryFields_db (s1.rest.length + 2) { s1 with curKey := some key }
+    cases hr2 : parseEntryFields (s1.rest.length + 2) { s1 with curKey := some key } with
+    | fail a s' => rw [hr2] at h2; exact h2.trans h
+    | ok u s2 =>
+      rw [hr2] at h2
+      simp only
+      split
+      · exact h2.trans h
+      · exact h2.trans h
+
+theorem parseStringBody_db (s : St) : (parseStringBody s).st.db = s.db := by
+  unfold parseStringBody
+  have h := required_db [.name] (descOf [.name]) s
+  cases hr : required [.name] (descOf [.name]) s with
+  | fail a s' => rw [hr] at h; exact h
+  | ok t s1 =>
+    rw [hr] at h
+    obtain ⟨_, name⟩ := t
+    simp only
+    have h2 := required_db [.lit '='] (descOf [.lit '=']) { s1 with curFieldName := some name }
+    cases hr2 : required [.lit '='] (descOf [.lit '=']) { s1 with curFieldName := some name } with
+    | fail a s' => rw [hr2] at h2; exact h2.trans h
+    | ok t2 s2 =>
+      rw [hr2] at h2
+      simp only
+      have h3 := parseValue_db s2
+      cases hr3 : parseValue s2 with
+      | fail a s' => rw [hr3] at h3; exact h3.trans (h2.trans h)
+      | ok u s3 => rw [hr3] at h3; exact h3.trans (h2.trans h)
+
+theorem afterBody_db (s : St) (body : Res Unit) (bodyEnd : Pat) :
+    body.st.db = s.db →
+    (match body with
+      | .fail e s => (Res.fail e s : Res Unit)
+      | .ok _ s =>
+        match required [bodyEnd] (descOf [bodyEnd]) s with
+        | .fail e s => .fail e s
+        | .ok _ s => (.ok () s : Res Unit)).st.db = s.db := by
+  intro hb
+  cases body with
+  | fail a s' => exact hb
+  | ok u s1 =>
+    simp only
+    have h := required_db [bodyEnd] (descOf [bodyEnd]) s1
+    cases hr : required [bodyEnd] (descOf [bodyEnd]) s1 with
+    | fail a s' => rw [hr] at h; exact h.trans hb
+    | ok t s2 => rw [hr] at h; exact h.trans hb
+
+theorem finish_db (s : St) (ab : Res Unit) (mk : St → Cmd) :
+    ab.st.db = s.db →
+    (match ab with
+      | .ok _ s => (Res.ok (mk s) s : Res Cmd)
+      | .fail (.syn e) s =>
+        match handleError s e with
+        | .fail a s => .fail a s
+        | .ok _ s => .ok (mk s) s
+      | .fail a s => .fail a s).st.db = s.db := by
+  intro h
+  cases ab with
+  | ok u s1 => exact h
+  | fail a s1 =>
+    cases a with
+    | syn e =>
+      simp only
+      have hg := handleError_db s1 e
+      cases hr : handleError s1 e with
+      | fail a s' => rw [hr] at hg; exact hg.trans h
+      | ok u s' => rw [hr] at hg; exact hg.trans h
+    | skip => exact h
+    | raised e => exact h
+
+/-- `parse_command` reads; it never touches the bibliography data -/
+theorem parseCommand_db (s : St) : (parseCommand s).st.db = s.db := by
+  unfold parseCommand
+  simp only
+  have h : (required [.name] (descOf [.name])
+      { s with curKey := none, curFields := [], curFieldName := none, curValue := [] }).st.db = s.db :=
+    required_db [.name] (descOf [.name])
+      { s with curKey := none, curFields := [], curFieldName := none, curValue := [] }
+  cases hr : required [.name] (descOf [.name])
+      { s with curKey := none, curFields := [], curFieldName := none, curValue := [] } with
+  | fail a s' => rw [hr] at h; exact h
+  | ok t s1 =>
+    rw [hr] at h
+    obtain ⟨_, command⟩ := t
+    simp only
+    have h2 := required_db [.lit '(', .lit '{'] (descOf [.lit '(', .lit '{']) s1
+    cases hr2 : required [.lit '(', .lit '{'] (descOf [.lit '(', .lit '{']) s1 with
+    | fail a s' => rw [hr2] at h2; exact h2.trans h
+    | ok t2 s2 =>
+      rw [hr2] at h2
+      obtain ⟨open_, _⟩ := t2
+      simp only
+      have h3 : s2.db = s.db := h2.trans h
+      split
+      · exact h3
+      · rw [← h3]
+        apply finish_db
+        apply afterBody_db
+        split
+        · exact parseStringBody_db s2
+        · exact parseValue_db s2
+        · exact parseEntryBody_db _ s2
+
+/-- what processing one command may do to the database lists: append at most one item -/
+def OneMore (s s' : St) : Prop :=
+  (∃ l, s'.db.entries = s.db.entries ++ l ∧ l.length ≤ 1) ∧
+  (∃ l, s'.db.preamble = s.db.preamble ++ l ∧ l.length ≤ 1)
+
+theorem OneMore.of_db {s s' : St} (h : s'.db = s.db) : OneMore s s' :=
+  ⟨⟨[], by simp [h], by simp⟩, ⟨[], by simp [h], by simp⟩⟩
+
+theorem addEntry_one (s : St) (key : Str) (e : Entry) : OneMore s (addEntry s key e).st := by
+  unfold addEntry
+  split
+  · exact OneMore.of_db rfl
+  · split
+    · exact OneMore.of_db (handleError_db _ _)
+    · simp only [Res.st]
+      refine ⟨⟨[{ e with key := canonicalKey s.db key }], ?_, by simp⟩, ⟨[], ?_, by simp⟩⟩
+      · split <;> rfl
+      · split <;> simp
+
+theorem addPersons_db (role : Str) (ns : List Str) (e : Entry) (s : St) :
+    (addPersons role ns e s).st.db = s.db := by
+  induction ns generalizing e s with
+  | nil => rfl
+  | cons n ns ih =>
+    unfold addPersons
+    split
+    · rfl
+    · rename_i p tooMany _
+      simp only
+      have h : (if tooMany then handleError s ⟨.invalidName (strip n), none⟩ else Res.ok () s).st.db = s.db := by
+        split
+        · exact handleError_db _ _
+        · rfl
+      cases hr : (if tooMany then handleError s ⟨.invalidName (strip n), none⟩ else Res.ok () s) with
+      | fail a s' => rw [hr] at h; exact h
+      | ok u s1 => rw [hr] at h; exact (ih _ s1).trans h
+
+theorem processFields_db (key : Str) (fs : List (Str × List Str)) (seen : List Str) (e : Entry) (s : St) :
+    (processFields key fs seen e s).st.db = s.db := by
+  induction fs generalizing seen e s with
+  | nil => rfl
+  | cons f fs ih =>
+    obtain ⟨name, parts⟩ := f
+    unfold processFields
+    split
+    · have h := handleError_db s ⟨.duplicateField key name, none⟩
+      cases hr : handleError s ⟨.duplicateField key name, none⟩ with
+      | fail a s' => rw [hr] at h; exact h
+      | ok u s1 => rw [hr] at h; exact (ih _ _ s1).trans h
+    · simp only
+      split
+      · have h := addPersons_db name (splitNameList (normalizeWs parts.flatten)) e s
+        cases hr : addPersons name (splitNameList (normalizeWs parts.flatten)) e s with
+        | fail a s' => rw [hr] at h; exact h
+        | ok e' s1 => rw [hr] at h; exact (ih _ _ s1).trans h
+      · exact ih _ _ s
+
+theorem OneMore.of_db_left {s s0 s' : St} (h0 : s0.db = s.db) (h : OneMore s0 s') : OneMore s s' := by
+  unfold OneMore at h ⊢
+  rw [← h0]; exact h
+
+theorem processEntry_one (type : Str) (key : Option Str) (fields : List (Str × List Str)) (s : St) :
+    OneMore s (processEntry type key fields s).st := by
+  unfold processEntry
+  cases key with
+  | some k =>
+    simp only
+    have h := processFields_db k fields []
+      { key := k, type := lower type, origType := type, fields := [], persons := [] } s
+    cases hr : processFields k fields []
+      { key := k, type := lower type, origType := type, fields := [], persons := [] } s with
+    | fail a s' => rw [hr] at h; exact OneMore.of_db h
+    | ok e s1 => rw [hr] at h; exact OneMore.of_db_left h (addEntry_one s1 k e)
+  | none =>
+    simp only
+    have h : (processFields ("unnamed-".toList ++ natToStr s.unnamed) fields []
+      { key := "unnamed-".toList ++ natToStr s.unnamed, type := lower type, origType := type, fields := [], persons := [] }
+      { s with unnamed := s.unnamed + 1 }).st.db = s.db :=
+      processFields_db ("unnamed-".toList ++ natToStr s.unnamed) fields []
+        { key := "unnamed-".toList ++ natToStr s.unnamed, type := lower type, origType := type, fields := [], persons := [] }
+        { s with unnamed := s.unnamed + 1 }
+    cases hr : processFields ("unnamed-".toList ++ natToStr s.unnamed) fields []
+      { key := "unnamed-".toList ++ natToStr s.unnamed, type := lower type, origType := type, fields := [], persons := [] }
+      { s with unnamed := s.unnamed + 1 } with
+    | fail a s' => rw [hr] at h; exact OneMore.of_db h
+    | ok e s1 => rw [hr] at h; exact OneMore.of_db_left h (addEntry_one s1 _ e)
+
+theorem processCmd_one (c : Cmd) (s : St) : OneMore s (processCmd c s).st := by
+  unfold processCmd
+  split
+  · exact OneMore.of_db rfl
+  · rename_i v
+    exact ⟨⟨[], by simp [Res.st], by simp⟩, ⟨[normalizeWs v.flatten], by simp [Res.st], by simp⟩⟩
+  · exact processEntry_one _ _ _ s
+
+/-- one round of the command loop: `inl` = the loop stops with this result, `inr` = it goes on
+from this state -/
+def loopStep (s : St) : (St × Option Err) ⊕ St :=
+  match skipToChar (· = '@') s.rest with
+  | none => .inl (s, none)
+  | some (chunk, rest) =>
+    let s := { s with rest := rest, ln := s.ln + countNl chunk }
+    match parseCommand s with
+    | .ok c s =>
+      match processCmd c s with
+      | .ok _ s => .inr s
+      | .fail (.raised e) s => .inl (s, some e)
+      | .fail (.syn e) s => .inl (s, some e)
+      | .fail .skip s => .inr s
+    | .fail (.syn e) s =>
+      match handleError s e with
+      | .ok _ s => .inr s
+      | .fail (.raised e) s => .inl (s, some e)
+      | .fail _ s => .inl (s, some e)
+    | .fail .skip s => .inr s
+    | .fail (.raised e) s => .inl (s, some e)
+
+theorem parseLoop_succ (fuel : Nat) (s : St) :
+    parseLoop (fuel + 1) s =
+      match loopStep s with
+      | .inl r => r
+      | .inr s' => parseLoop fuel s' := by
+  rw [parseLoop.eq_def]
+  simp only [loopStep]
+  cases h1 : skipToChar (· = '@') s.rest with
+  | none => rfl
+  | some p =>
+    obtain ⟨chunk, rest⟩ := p
+    simp only
+    cases h2 : parseCommand { s with rest := rest, ln := s.ln + countNl chunk } with
+    | ok c s2 =>
+      simp only
+      cases h3 : processCmd c s2 with
+      | ok u s3 => rfl
+      | fail a s3 => cases a <;> rfl
+    | fail a s2 =>
+      cases a with
+      | syn e =>
+        simp only
+        cases h3 : handleError s2 e with
+        | ok u s3 => rfl
+        | fail a s3 => cases a <;> rfl
+      | skip => rfl
+      | raised e => rfl
+
+theorem loopStep_one (s : St) :
+    match loopStep s with
+    | .inl r => OneMore s r.1
+    | .inr s' => OneMore s s' := by
+  unfold loopStep
+  cases h1 : skipToChar (· = '@') s.rest with
+  | none => exact OneMore.of_db rfl
+  | some p =>
+    obtain ⟨chunk, rest⟩ := p
+    simp only
+    have h := parseCommand_db { s with rest := rest, ln := s.ln + countNl chunk }
+    have h' : ({ s with rest := rest, ln := s.ln + countNl chunk } : St).db = s.db := rfl
+    cases hr : parseCommand { s with rest := rest, ln := s.ln + countNl chunk } with
+    | ok c s2 =>
+      rw [hr] at h
+      simp only
+      have h2 := processCmd_one c s2
+      have h20 : s2.db = s.db := h.trans h'
+      cases hr2 : processCmd c s2 with
+      | ok u s3 => rw [hr2] at h2; exact OneMore.of_db_left h20 h2
+      | fail a s3 =>
+        rw [hr2] at h2
+        cases a <;> exact OneMore.of_db_left h20 h2
+    | fail a s2 =>
+      rw [hr] at h
+      have h20 : s2.db = s.db := h.trans h'
+      cases a with
+      | syn e =>
+        simp only
+        have h2 := handleError_db s2 e
+        cases hr2 : handleError s2 e with
+        | ok u s3 => rw [hr2] at h2; exact OneMore.of_db (h2.trans h20)
+        | fail a s3 =>
+          rw [hr2] at h2
+          cases a <;> exact OneMore.of_db (h2.trans h20)
+      | skip => exact OneMore.of_db h20
+      | raised e => exact OneMore.of_db h20
+
+/-- one more round of the command loop appends at most one entry and one preamble item -/
+theorem parseLoop_step (k : Nat) (s : St) :
+    OneMore (parseLoop k s).1 (parseLoop (k + 1) s).1 := by
+  induction k generalizing s with
+  | zero =>
+    rw [parseLoop_succ]
+    have h := loopStep_one s
+    cases hl : loopStep s with
+    | inl r => rw [hl] at h; exact h
+    | inr s' => rw [hl] at h; exact h
+  | succ k ih =>
+    rw [parseLoop_succ (k + 1) s, parseLoop_succ k s]
+    cases hl : loopStep s with
+    | inl r => exact OneMore.of_db rfl
+    | inr s' => exact ih s'
+
 end Pybtex.Bib
